@@ -131,12 +131,13 @@ CHECKS = [
      "design_ref": "4/C09", "note": SIM_NOTE + "; the oracle is a relation between two chip snapshots, no model of the individual setters is needed",
      "technique": "property-based testing: enumerated class-pair/call combinations + Hypothesis-generated multi-object with-block interleavings, metamorphic snapshot-equality oracle"},
     {"property_id": "C10", "level": "exploration",
-     "text": "Hypothesis op lists mixing traffic (peer sends to any pipe, write/CE/send to listening, absent or ACK-payload peers, "
+     "text": "every word of 3 (quick) / 4 (thorough) traffic and mutator ops over a 16-symbol alphabet in every payload mode, "
+             "followed by an accessor tail (exhaustive), and Hypothesis op lists mixing traffic (peer sends to any pipe, write/CE/send to listening, absent or ACK-payload peers, "
              "load_ack, role toggles) with every accessor in all its argument forms, in dynamic / static per-pipe / mixed payload "
              "modes; each accessor is compared with the simulated chip's FIFOs, latched flags, STATUS byte of the last "
-             "transaction, retransmission count in the air log and IRQ pin; sampled histories only",
+             "transaction, retransmission count in the air log and IRQ pin; exhaustive only for the stated words",
      "design_ref": "4/C10", "note": SIM_NOTE + "; the executor lets radio activity finish before each op so no event races an accessor",
-     "technique": "property-based testing: Hypothesis-generated traffic/accessor histories against simulated-chip ground truth"},
+     "technique": "property-based testing: bounded-exhaustive op words + Hypothesis-generated traffic/accessor histories against simulated-chip ground truth"},
     {"property_id": "C20", "level": "exploration",
      "text": "the C01/C02/C03/C08/C10 harnesses re-run with the lite driver as transmitter, receiver and both (their enumerated "
              "parts at reduced depth, their generated parts at reduced counts) against the lite variants of the reference models, "
